@@ -44,10 +44,7 @@ known("C01", "C01-var-only-in-directive", ["var-only-in-directive"],
       r"^errors: INVALID SUBREQUEST: Variable \"\$<var>\" is not defined\.$",
       "a variable used only in @skip/@include is neither declared in the sub-request header nor forwarded (format.go walkArgumentList only looks at field arguments)",
       witness='query($s:Boolean!){ n1s { name @skip(if:$s) } }')
-for sig in [r"^errors: VARIABLE ERROR: input: variable\.<?\w+>? must be defined$", r"^errors: VARIABLE ERROR: ", r"^diff:(VALUE|LISTLEN|NULL) "]:
-    known("C01", "C01-var-default-lost:" + re.sub(r"[^A-Za-z]+", "-", sig)[:30].strip("-"), ["var-default-used"], sig,
-      "a client-declared variable default is not carried into the sub-request (the synthesised header has no defaults and only provided values are forwarded)",
-      witness='query($v0:Int=3){ echo(x:$v0) }')
+fixed("C01", "C01-var-default-lost", "3d1acbb", "query($v0:Int=3){ echo(x:$v0) } sent without variables: the sub-request header is synthesised from the schema and only provided values were forwarded, so the client's declared default never reached the service (its own argument default was used, or a required argument was reported missing)")
 known("C01", "C01-alias-is-id", ["alias-is-id"], r"^(errors: INVALID SUBREQUEST: Fields \"id\" conflict|diff:MISSING (id|<field>)$)",
       "an alias named `id` on another field collides with the injected helper id", witness="{ n1s { id: name } }")
 known("C01", "C01-id-aliased", ["id-aliased"], r"^errors: could not find the id for elements in target list: map\[…\]$",
@@ -92,8 +89,8 @@ known("C01", "C01-named-fragment-reused", ["frag-named-twice"], r"^diff:EXTRA (i
 known("C01", "C01-same-key-across-fragment-explicit-id", ["same-response-key-across-fragment", "explicit-id"], r"^diff:MISSING id$",
       "one composite field selected twice under one response key, once directly and once through a fragment, with `id` requested explicitly in only one of the two: the helper `id` the planner adds for the other one is registered for scrubbing at the shared path and the client's own `id` is removed (sibling selections without a fragment are merged since fix 7dafd02)",
       witness="{ n2 { id } ... { n2 { title } } }")
-known("C01", "C01-same-key-across-fragment-explicit-typename", ["same-response-key-across-fragment", "typename"], r"^diff:MISSING __typename$",
-      "same defect as C01-same-key-across-fragment-explicit-id for the other helper: an abstract-typed field selected twice under one response key, once with the client's own __typename and once through a fragment; the helper __typename added for the second one is registered for scrubbing at the shared path and removes the client's",
+known("C01", "C01-same-key-across-fragment-explicit-typename", ["same-response-key-across-fragment", "typename"], r"^diff:MISSING (__typename|<field>)$",
+      "same defect as C01-same-key-across-fragment-explicit-id for the other helper: an abstract-typed field selected twice under one response key, once with the client's own __typename and once through a fragment; the helper __typename added for the second one is registered for scrubbing at the shared path and removes the client's (an object left empty by that is pruned, the whole field is then missing)",
       witness="{ named { __typename } ... { named { ... on N1 { calc } } } }")
 fixed("C01", "C01-same-response-key-siblings-not-merged", "7dafd02", "{ n1s { name } n1s { phone } }: the sanitizer kept the first of two sibling fields with one response key and dropped the other's selections (phone missing, no error)")
 
@@ -102,7 +99,6 @@ C02 = [
  ("root-node", ["root-node"], [r"^plan-drops-client-field: (__typename|node|id|<field>)$", r"^subrequest-invalid: Cannot query field \"<x>\" on type \"<x>\"\.", r"^subrequest-invalid: Fields \"id\" conflict",
                 r"^plan-adds-non-helper-field$", r"^helper-not-registered-for-removal: (id|__typename)$", r"^subrequest-invalid: Expected \{, found"], RN),
  ("var-only-in-directive", ["var-only-in-directive"], [r"^subrequest-invalid: Variable \"\$<var>\" is not defined\.$"], "a variable used only in a directive is not declared in the sub-request"),
- ("var-default-lost", ["var-default-used"], [r"^subrequest-variable-error: ", r"^variable-value-differs: want \w+ got null$"], "client-declared variable defaults do not reach the service"),
  ("alias-is-id", ["alias-is-id"], [r"^subrequest-invalid: Fields \"id\" conflict", r"^plan-drops-client-field: <field>$"], "alias named id collides with the injected helper id"),
  ("interface-field", ["interface-field"], [r"^subrequest-invalid: Expected \{, found", r"^plan-adds-non-helper-field$", r"^subrequest-invalid: Unknown type"], "interface-typed fields are rewritten into per-type fragments that may be empty or name types the receiver lacks"),
  ("node-typed-field", ["node-interface-field"], [r"^subrequest-invalid: Expected \{, found", r"^plan-adds-non-helper-field$", r"^subrequest-invalid: Unknown type", r"^plan-drops-client-field: ", r"^helper-not-registered-for-removal: "],
